@@ -19,9 +19,6 @@ import traceback
 import numpy as np
 
 POISONS = ["5A", "A5", "FF", "nodata", "nan", "stale", "00"]
-# second call of an njit program on strided views (costs one more numba specialisation per
-# program, hence thorough tier only)
-STRIDED_NJIT = os.environ.get("C14_STRIDED_NJIT") == "1"
 
 
 def sha_arrays(arrs):
@@ -242,8 +239,7 @@ def call_program(prog, fn, d, pool, rng, poisons=None):
         res["exc"] = "raises" if excs[0] else None
     else:
         r1, e1 = guarded(lambda: fn(*args))
-        args2 = [strided_copy(a)[0] for a in args] if STRIDED_NJIT and rng.random() < 0.5 else args
-        r2, e2 = guarded(lambda: fn(*args2))
+        r2, e2 = guarded(lambda: fn(*args))
         s1 = sha_arrays(flatten_result(r1)) if e1 is None else None
         s2 = sha_arrays(flatten_result(r2)) if e2 is None else None
         for exc in (e1, e2):
